@@ -56,8 +56,17 @@ BindingOK(ev, pre) ==
   ELSE IF c.op = "add_domain" /\ ev.out = "ok" /\ (\E d \in o.doms : d.nl = c.nl) THEN "BindOnlyUnboundNodeLabel"
   ELSE "ok"
 
+\* ev.ty : handle -> the observed .type of a graph (label names) / the .type of every rule's right-hand side
+TypeOK(ev, post) ==
+  IF "ty" \notin DOMAIN ev THEN "ok"
+  ELSE IF \E h \in DOMAIN ev.ty \cap DOMAIN post :
+            IF post[h].k \in {"graph", "fgraph"} THEN ev.ty[h] # GraphType(post[h])
+            ELSE IF post[h].k \in {"hrg", "fgg"} THEN ev.ty[h] # [i \in DOMAIN post[h].rules |-> GraphType(post[h].rules[i].rhs)]
+            ELSE FALSE
+       THEN "TypeIsTheLabelsOfTheExternalNodes" ELSE "ok"
+
 MayChange(ev) == {ev.call.h} \cup (IF ev.call.h = "g1" THEN BSeqSet(ev.sharers) ELSE {})
-                             \cup (IF ev.call.op \in {"copy", "new", "new_hrg"} THEN {OtherG(ev.call.h)} ELSE {})
+                             \cup (IF ev.call.op \in {"copy", "new", "new_hrg", "from_graph"} THEN {OtherG(ev.call.h)} ELSE {})
 \* objects the call broke (a copy of an already ill-formed object is not blamed on copy())
 BrokenBy(ev, pre, post) ==
   { h \in DOMAIN post : /\ ObjWFClause(pre[h]) = "ok" /\ ObjWFClause(post[h]) # "ok"
@@ -71,6 +80,10 @@ Clause(ev) ==
   ELSE IF c.op = "copy" /\ ev.out = "ok" /\ post[OtherG(c.h)] # post[c.h] THEN "CopyEqualsOriginal"
   ELSE IF c.op = "copy" /\ ev.out = "ok" /\ ~ev.eq[c.h][OtherG(c.h)] THEN "CopyComparesEqual"
   ELSE IF c.op = "copy" /\ post[c.h] # pre[c.h] THEN "CopyLeavesOriginal"
+  ELSE IF c.op = "from_graph" /\ ev.out = "ok" /\
+          (GraphCore(post[OtherG(c.h)]) # GraphCore(post[c.h]) \/ post[OtherG(c.h)].doms # {} \/ post[OtherG(c.h)].facs # {}) THEN "FromGraphKeepsTheGraph"
+  ELSE IF c.op = "from_graph" /\ post[c.h] # pre[c.h] THEN "CopyLeavesOriginal"
+  ELSE IF TypeOK(ev, post) # "ok" THEN TypeOK(ev, post)
   ELSE IF BindingOK(ev, pre) # "ok" THEN BindingOK(ev, pre)
   ELSE EqOK(ev, post)
 
